@@ -188,8 +188,17 @@ def finish(ctx, t0, seed=0, level='other', assumptions=(), explanation='', extra
     }
     with open(os.path.join(ev_dir, '%s.json' % prop), 'w') as fh:
         json.dump(ev, fh, indent=1)
-    print('%s [%s]: %d rule instances over %d rules, %d known finding(s), %d violation(s)' % (
-        prop, ctx.tier, evaluated, len(ctx.rules), len(known_hits), len(violations)))
-    for r in ctx.rules:
-        print('   %-8s %-4s %3d evaluated %3d ok %2d finding(s)  %s' % (r.id, r.template, r.evaluated, r.ok_count, len(r.findings), r.title))
+    # the verdict is the exit status and the VIOLATION lines above; the summary is for the reader: a reader that has gone away (a closed
+    # pipe) must not turn a held property into a failing exit status
+    try:
+        print('%s [%s]: %d rule instances over %d rules, %d known finding(s), %d violation(s)' % (
+            prop, ctx.tier, evaluated, len(ctx.rules), len(known_hits), len(violations)))
+        for r in ctx.rules:
+            print('   %-8s %-4s %3d evaluated %3d ok %2d finding(s)  %s' % (r.id, r.template, r.evaluated, r.ok_count, len(r.findings), r.title))
+        sys.stdout.flush()
+    except BrokenPipeError:
+        try:
+            os.dup2(os.open(os.devnull, os.O_WRONLY), sys.stdout.fileno())
+        except OSError:
+            pass
     return 1 if violations else 0
